@@ -899,6 +899,32 @@ fn mutate_bytes(ops: &mut [POp], rng: &mut Rng) {
     }
 }
 
+/// Seed inputs for the libFuzzer target `peer_script` (4 header bytes + serialised script).
+pub fn fuzz_seeds(n: usize, seed: u64) -> Vec<Vec<u8>> {
+    let mut rng = Rng::new(seed ^ 0xC06F);
+    let mut out = Vec::new();
+    for i in 0..n {
+        let h3_is_server = i % 2 == 0;
+        let nreq = 1 + (i / 2) % 3;
+        let mut ops = skeleton(h3_is_server, nreq, rng.below(32), &mut rng);
+        match i % 4 {
+            0 => {}
+            1 => mutate_grammar(&mut ops, &mut rng),
+            2 => mutate_bytes(&mut ops, &mut rng),
+            _ => {
+                mutate_grammar(&mut ops, &mut rng);
+                mutate_grammar(&mut ops, &mut rng);
+            }
+        }
+        let mut b = vec![if h3_is_server { 0u8 } else { 1 } | if rng.bool() { 2 } else { 0 }, (nreq - 1) as u8, rng.below(256) as u8, rng.below(256) as u8];
+        b.extend(encode(&ops));
+        if b.len() <= 4096 {
+            out.push(b);
+        }
+    }
+    out
+}
+
 fn run_case(gen: &str, index: u64, seed: u64, _tier: Tier, rep: &mut Report) {
     let mut rng = Rng::new(seed);
     match gen {
